@@ -101,7 +101,8 @@ func c14Property(rec *Recorder) func(*rapid.T) {
 		if tw := tweakJSON(doc); tw != nil {
 			b2 := refenc.JSONBinary(tw, nil)
 			if len(b2) == len(bin) {
-				buf := refenc.LenPrefixed(bin, 4)
+				// first the tweaked document (never seen before), then the original one written over it
+				buf := refenc.LenPrefixed(b2, 4)
 				var out1, out2 []byte
 				err := guard(func() (e error) {
 					out1, _, e = replication.CellBytes(buf, 0, refenc.TJSON, 4, false)
@@ -109,16 +110,19 @@ func c14Property(rec *Recorder) func(*rapid.T) {
 						return e
 					}
 					out1 = append([]byte{}, out1...)
-					copy(buf[4:], b2)
+					copy(buf[4:], bin)
 					out2, _, e = replication.CellBytes(buf, 0, refenc.TJSON, 4, false)
 					return e
 				})
 				rec.Class("same-length-overwrite")
 				if err == nil {
-					err = hist.CheckJSONText(out2, tw)
+					err = hist.CheckJSONText(out1, tw)
+				}
+				if err == nil {
+					err = hist.CheckJSONText(out2, doc)
 				}
 				if err != nil {
-					c2 := CellSeqCase{Prev: c, Cur: CellCase{Col: col, Val: hist.Value{J: tw}}}
+					c2 := CellSeqCase{Prev: CellCase{Col: col, Val: hist.Value{J: tw}}, Cur: c}
 					err = fmt.Errorf("second document written over the first in the caller's buffer: %v", err)
 					rec.Violation("c14reuse", c2, "", err)
 					rt.Fatalf("C14 violation: %v", err)
